@@ -217,6 +217,19 @@ func exec(planJSON []byte, run *core.Run) {
 		run.Violate(comp+".MarshalBinary", "error", "%v %v", err1, err2)
 		return
 	}
+	// what MarshalBinary returned is written to disk and the buffers are wiped; the key
+	// objects must not have been sharing memory with them
+	wipe := func(b []byte) []byte { c := append([]byte{}, b...); core.Recycle(b); return c }
+	pkB, skB = wipe(pkB), wipe(skB)
+	run.Fault("disk:marshalled-key-buffers-wiped")
+	if b, _ := sk.MarshalBinary(); !bytes.Equal(b, skB) {
+		run.Violate(comp+".PrivateKey.MarshalBinary", "returned-bytes-share-memory-with-the-key", "wiping the first encoding changed what the key marshals to")
+		return
+	}
+	if b, _ := pk.MarshalBinary(); !bytes.Equal(b, pkB) {
+		run.Violate(comp+".PublicKey.MarshalBinary", "returned-bytes-share-memory-with-the-key", "wiping the first encoding changed what the key marshals to")
+		return
+	}
 	run.Event("responder", "derive", pkB)
 	if len(pkB) != s.PublicKeySize() || len(skB) != s.PrivateKeySize() {
 		run.Violate(comp+".DeriveKeyPair", "size-differs-from-advertised", "pk %d (advertised %d), sk %d (advertised %d)", len(pkB), s.PublicKeySize(), len(skB), s.PrivateKeySize())
